@@ -1102,6 +1102,114 @@ func (b *seekBuf) Seek(off int64, whence int) (int64, error) {
 	return int64(b.pos), nil
 }
 
+// idOps: the file identifier is replaced / cleared / shortened between NewWriter and Close (the key of revisions
+// below 6 was derived from ID[0] at NewWriter time).  Either Close refuses, or the file is a file the Writer
+// produced: the real Reader and - for revisions up to 4, where it is cheap - the independent handler must
+// authenticate on the /Encrypt dictionary and the /ID actually written, with both passwords.
+func (rn *run) idOps() {
+	e := rn.e
+	muts := []string{"none", "replace-first", "replace-both", "replace-second", "clear", "shorten-first", "one-element", "swap", "same-bytes-new-slice"}
+	for _, v := range versions {
+		for _, mut := range muts {
+			if !e.Thorough && mut != "replace-first" && mut != "replace-both" && e.Rand.IntN(2) == 0 {
+				continue
+			}
+			user, owner := "u-"+string(marker(e, "pw")[6:12]), "o-"+string(marker(e, "pw")[6:12])
+			buf := &bytes.Buffer{}
+			w, err := pdf.NewWriter(buf, v, &pdf.WriterOptions{UserPassword: user, OwnerPassword: owner, UserPermissions: pdf.PermCopy,
+				ID: [][]byte{randBytes(e, 16), randBytes(e, 16)}})
+			if err != nil {
+				e.Fail("writer-refuses", err.Error(), fmt.Sprint(v))
+				continue
+			}
+			m := marker(e, "idop")
+			ref := w.Alloc()
+			w.Put(ref, pdf.Dict{"S": pdf.String(append([]byte{}, m...))})
+			pages := w.Alloc()
+			w.Put(pages, pdf.Dict{"Type": pdf.Name("Pages"), "Kids": pdf.Array{}, "Count": pdf.Integer(0)})
+			w.GetMeta().Catalog.Pages = pages
+			encDict, _ := w.GetMeta().Trailer["Encrypt"].(pdf.Dict)
+			fileKey := pdf.VerifWriterFileKey(w)
+			meta := w.GetMeta()
+			switch mut {
+			case "replace-first":
+				meta.ID = [][]byte{randBytes(e, 16), meta.ID[1]}
+			case "replace-both":
+				meta.ID = [][]byte{randBytes(e, 16), randBytes(e, 16)}
+			case "replace-second":
+				meta.ID = [][]byte{meta.ID[0], randBytes(e, 16)}
+			case "clear":
+				meta.ID = nil
+			case "shorten-first":
+				meta.ID = [][]byte{meta.ID[0][:8], meta.ID[1]}
+			case "one-element":
+				meta.ID = meta.ID[:1]
+			case "swap":
+				meta.ID = [][]byte{meta.ID[1], meta.ID[0]}
+			case "same-bytes-new-slice":
+				meta.ID = [][]byte{append([]byte{}, meta.ID[0]...), append([]byte{}, meta.ID[1]...)}
+			}
+			info := map[string]any{"version": fmt.Sprint(v), "mutation": mut}
+			key := fmt.Sprintf("idop|%v|%s", v, mut)
+			closeErr, panicked := func() (err error, p any) {
+				defer func() { p = recover() }()
+				return w.Close(), nil
+			}()
+			if panicked != nil {
+				e.Fail("close-panics", fmt.Sprintf("Writer.Close panics after GetMeta().ID was changed (%s): %v", mut, panicked), info)
+				continue
+			}
+			if closeErr != nil {
+				if mut == "none" || mut == "same-bytes-new-slice" {
+					e.Fail("close-refuses-unchanged-id", closeErr.Error(), info)
+				}
+				e.Count(true, key, "id-ops/refused")
+				continue
+			}
+			data := buf.Bytes()
+			var written [][]byte
+			opened := true
+			for _, pw := range []string{user, owner} {
+				r, err := pdf.NewReader(bytes.NewReader(data), int64(len(data)), &pdf.ReaderOptions{Password: pw})
+				if err != nil {
+					e.Fail("id-changed-before-close", fmt.Sprintf("Close accepted a changed file identifier but the file cannot be opened with its password: %v", err), info)
+					opened = false
+					break
+				}
+				written = r.GetMeta().ID
+			}
+			if !opened {
+				continue
+			}
+			e.Count(true, key, "id-ops/accepted")
+			// the independent handler on what is in the file
+			Rint, _ := encDict["R"].(pdf.Integer)
+			R := int(Rint)
+			if R >= 5 || len(written) != 2 {
+				continue
+			}
+			V, _ := encDict["V"].(pdf.Integer)
+			keyBytes := map[pdf.Integer]int{1: 5, 2: 16, 4: 16}[V]
+			if l, ok := encDict["Length"].(pdf.Integer); ok && V == 2 {
+				keyBytes = int(l) / 8
+			}
+			P, _ := encDict["P"].(pdf.Integer)
+			for _, pw := range []string{user, owner} {
+				rawPw, _ := rawPrep(R, pw)
+				id := rn.nextID("a")
+				e.Line("cases.txt", "%s A %d %d %d 0 %s %s %s - - - 1 %s %d 0", id, R, keyBytes, uint32(int32(P)), common.Hex(written[0]),
+					common.Hex(str(encDict, "O")), common.Hex(str(encDict, "U")), common.Hex(rawPw), boolInt(V >= 4))
+				e.Line("ameta.txt", "%s R=%d id-mutation=%s version=%v password=%q", id, R, mut, v, pw)
+				perm := pdf.PermAll
+				if pw == user {
+					perm = pdf.PermCopy
+				}
+				e.Line("impl.obs", "%s ok %d %s", id, int(perm), common.Hex(fileKey))
+			}
+		}
+	}
+}
+
 // ---- phase 2: files encrypted by the model ----------------------------------------------------
 
 type planItem struct {
@@ -1560,6 +1668,7 @@ func main() {
 		}
 		rn.checkFile(config{version: pdf.V2_0, user: "u", owner: pw, perm: pdf.PermCopy, human: i%2 == 1, forceModel: true})
 	}
+	rn.idOps()
 	rn.cryptCases()
 	rn.placeholderCases()
 	rn.planPhase2()
